@@ -97,6 +97,9 @@ pub(crate) enum Token<'a> {
 
     /// Unknown token, not expected by the lexer, e.g. "№"
     Illegal,
+
+    /// End of the input (never produced by the tokenizer itself, used by the parser)
+    Eof,
 }
 
 /// Peekable iterator over a char sequence.
@@ -228,7 +231,10 @@ impl<'a> Iterator for Tokenizer<'a> {
                 self.skip_while(|c, esc| c != '"' || esc);
 
                 // skip closing "
-                self.bump()?;
+                if self.bump().is_none() {
+                    // the input ended before the string did
+                    return Some(Illegal);
+                }
 
                 // this reads the string including escape characters
                 String(self.read_str(start + 1, self.offset() - 1))
